@@ -1,8 +1,254 @@
 (* Proofs/Sig0Proofs.v — lemmas about Model/Sig0.v *)
 From Coq Require Import Lia ZifyN ZifyNat ZifyBool.
-From Dns Require Import Base.ListX Model.Sig0 Proofs.WireProofs.
+From Dns Require Import Base.ListX Model.Sig0 Model.Tsig Proofs.WireProofs Proofs.TsigProofs.
 Open Scope N_scope.
 
-Lemma key_fields_bad_err sc r kname buf now :
-  key_fields_bad r = true -> sig0_verify sc r kname buf now = Err "key".
-Proof. unfold sig0_verify. now intros ->. Qed.
+Ltac Zify.zify_post_hook ::= Z.div_mod_to_equations.
+
+(* ---------- safety: neither a Go panic nor the model's fuel ---------- *)
+Definition safe {A} (r : res A) : Prop := r <> Panic /\ r <> OutOfFuel.
+
+Lemma safe_ok {A} (a : A) : safe (Ok a). Proof. split; discriminate. Qed.
+Lemma safe_err {A} c : safe (@Err A c). Proof. split; discriminate. Qed.
+Lemma safe_bind {A B} (r : res A) (f : A -> res B) :
+  safe r -> (forall a, r = Ok a -> safe (f a)) -> safe (bind r f).
+Proof.
+  intros [H1 H2] Hf. destruct r; cbn; try contradiction.
+  - now apply Hf.
+  - apply safe_err.
+Qed.
+
+Lemma name_loop_no_panic f : forall msg off b p o1 acc, name_loop f msg off b p o1 acc <> Panic.
+Proof.
+  induction f as [|f IH]; intros msg off b p o1 acc; [discriminate|].
+  cbn [name_loop].
+  destruct (lenN msg <=? off); [discriminate|].
+  destruct (nthN msg off 0 <? 64).
+  - destruct (nthN msg off 0 =? 0); [discriminate|].
+    destruct (lenN msg <? off + 1 + nthN msg off 0); [discriminate|].
+    destruct (b <=? nthN msg off 0 + 1); [discriminate|]. apply IH.
+  - destruct ((192 <=? nthN msg off 0) && (nthN msg off 0 <? 256)); [|discriminate].
+    destruct (lenN msg <=? off + 1); [discriminate|].
+    destruct (max_ptrs <? p + 1); [discriminate|]. apply IH.
+Qed.
+
+Lemma unpack_name_safe msg off : safe (unpack_name msg off).
+Proof. split; [unfold unpack_name; apply name_loop_no_panic|apply unpack_name_total]. Qed.
+
+Lemma be_at_ok n buf off : off + n <= lenN buf -> exists v, be_at n buf off = Ok v.
+Proof.
+  intros H. unfold be_at. replace (off + n <=? lenN buf) with true by (symmetry; now apply N.leb_le). eauto.
+Qed.
+Lemma be_at_safe n buf off : off + n <= lenN buf -> safe (be_at n buf off).
+Proof. intros H. destruct (be_at_ok n buf off H) as [v ->]. apply safe_ok. Qed.
+Lemma slice_safe {A} (l : list A) a b : a <= b -> b <= lenN l -> safe (slice l a b).
+Proof.
+  intros H1 H2. unfold slice.
+  replace ((a <=? b) && (b <=? lenN l)) with true
+    by (symmetry; apply andb_true_intro; split; now apply N.leb_le).
+  apply safe_ok.
+Qed.
+
+Section Safety.
+  Variable sig_sign : N -> bytes -> res bytes.
+  Variable sig_check : N -> bytes -> bytes -> res unit.
+
+  Lemma q_loop_S n buf off :
+    q_loop (S n) buf off =
+    if lenN buf <=? off then Ok off
+    else bind (unpack_name buf off) (fun p => let '(_, o) := p in q_loop n buf (o + 4)).
+  Proof. reflexivity. Qed.
+  Lemma rr_loop_S n buf off :
+    rr_loop (S n) buf off =
+    if lenN buf <=? off then Ok off
+    else bind (unpack_name buf off) (fun p => let '(_, o) := p in
+           if lenN buf <=? o + 8 + 1 then rr_loop n buf (o + 8)
+           else bind (be_at 2 buf (o + 8)) (fun rdlen => rr_loop n buf (o + 8 + 2 + rdlen))).
+  Proof. reflexivity. Qed.
+
+  Lemma q_loop_safe n : forall buf off, safe (q_loop n buf off).
+  Proof.
+    induction n as [|n IH]; intros buf off; [apply safe_ok|].
+    rewrite q_loop_S. destruct (lenN buf <=? off); [apply safe_ok|].
+    apply safe_bind; [apply unpack_name_safe|]. intros [ls o] _. apply IH.
+  Qed.
+  Lemma q_loop_mono n : forall buf off o, q_loop n buf off = Ok o -> off <= o.
+  Proof.
+    induction n as [|n IH]; intros buf off o H.
+    - cbn in H. inversion H. lia.
+    - rewrite q_loop_S in H. destruct (lenN buf <=? off); [inversion H; lia|].
+      apply bind_ok in H. destruct H as ([ls o1] & U & H).
+      apply unpack_name_bounds in U. apply IH in H. lia.
+  Qed.
+
+  Lemma rr_loop_safe n : forall buf off, safe (rr_loop n buf off).
+  Proof.
+    induction n as [|n IH]; intros buf off; [apply safe_ok|].
+    rewrite rr_loop_S. destruct (lenN buf <=? off); [apply safe_ok|].
+    apply safe_bind; [apply unpack_name_safe|]. intros [ls o] _.
+    destruct (lenN buf <=? o + 8 + 1) eqn:E; [apply IH|]. apply N.leb_gt in E.
+    apply safe_bind; [apply be_at_safe; lia|]. intros rdlen _. apply IH.
+  Qed.
+  Lemma rr_loop_mono n : forall buf off o, rr_loop n buf off = Ok o -> off <= o.
+  Proof.
+    induction n as [|n IH]; intros buf off o H.
+    - cbn in H. inversion H. lia.
+    - rewrite rr_loop_S in H. destruct (lenN buf <=? off); [inversion H; lia|].
+      apply bind_ok in H. destruct H as ([ls o1] & U & H).
+      apply unpack_name_bounds in U.
+      destruct (lenN buf <=? o1 + 8 + 1).
+      + apply IH in H. lia.
+      + apply bind_ok in H. destruct H as (rdlen & _ & H). apply IH in H. lia.
+  Qed.
+
+  (* SIG.Verify on any buffer of at least header size: an error or a verdict,
+     never a panic (and never the model's own fuel), provided the signature
+     check itself does not panic *)
+  Theorem verify_safe r kname buf now :
+    12 <= lenN buf -> (forall a d s, safe (sig_check a d s)) ->
+    safe (sig0_verify sig_check r kname buf now).
+  Proof.
+    intros Hlen Hsc. unfold sig0_verify.
+    destruct (key_fields_bad r); [apply safe_err|].
+    destruct (negb (has_hash (s_alg r))); [apply safe_err|].
+    apply safe_bind; [apply be_at_safe; lia|]. intros qdc _.
+    apply safe_bind; [apply be_at_safe; lia|]. intros anc _.
+    apply safe_bind; [apply be_at_safe; lia|]. intros auc _.
+    apply safe_bind; [apply be_at_safe; lia|]. intros adc _.
+    apply safe_bind; [apply q_loop_safe|]. intros o1 Hq. apply q_loop_mono in Hq.
+    apply safe_bind; [apply rr_loop_safe|]. intros bodyend Hr. apply rr_loop_mono in Hr.
+    destruct (lenN buf <=? bodyend) eqn:E1; [apply safe_err|]. apply N.leb_gt in E1.
+    apply safe_bind; [apply unpack_name_safe|]. intros [ls1 o2] U1. apply unpack_name_bounds in U1.
+    destruct (lenN buf <=? o2 + 10 + 8 + 8) eqn:E2; [apply safe_err|]. apply N.leb_gt in E2.
+    apply safe_bind; [apply be_at_safe; lia|]. intros expire _.
+    apply safe_bind; [apply be_at_safe; lia|]. intros incept _.
+    destruct ((now <? incept) || (expire <? now)); [apply safe_err|].
+    apply safe_bind; [apply unpack_name_safe|]. intros [signer sigend] U2. apply unpack_name_bounds in U2.
+    destruct (negb (name_equal signer kname)); [apply safe_err|].
+    apply safe_bind.
+    - unfold verify_data.
+      apply safe_bind; [apply slice_safe; lia|]. intros rd _.
+      apply safe_bind; [apply slice_safe; lia|]. intros h10 _.
+      apply safe_bind; [apply slice_safe; lia|]. intros body _. apply safe_ok.
+    - intros data _. apply safe_bind; [apply slice_safe; lia|]. intros sg _. apply Hsc.
+  Qed.
+End Safety.
+
+(* ---------- SIG.Sign ---------- *)
+Lemma put_u16_mid (a b : bytes) x v : put_u16 (a ++ u16 x ++ b) (lenN a) v = Ok (a ++ u16 v ++ b).
+Proof.
+  unfold put_u16. rewrite lenN_app, lenN_app, len_u16.
+  replace (lenN a + 2 <=? lenN a + (2 + lenN b)) with true by (symmetry; apply N.leb_le; lia).
+  rewrite takeN_app_exact. f_equal. f_equal. f_equal.
+  rewrite dropN_add, dropN_app_exact. reflexivity.
+Qed.
+Lemma be_at_mid (a b : bytes) x : be_at 2 (a ++ u16 x ++ b) (lenN a) = Ok (x mod 65536).
+Proof.
+  unfold be_at. rewrite lenN_app, lenN_app, len_u16.
+  replace (lenN a + 2 <=? lenN a + (2 + lenN b)) with true by (symmetry; apply N.leb_le; lia).
+  f_equal. unfold get. rewrite dropN_app_exact.
+  change 2 with (lenN (u16 x)). rewrite takeN_app_exact. apply be_u16.
+Qed.
+
+Lemma put_u16_len b off v b' : put_u16 b off v = Ok b' -> lenN b' = lenN b.
+Proof.
+  unfold put_u16. destruct (off + 2 <=? lenN b) eqn:E; [|discriminate]. apply N.leb_le in E.
+  intros H. assert (E' : b' = takeN off b ++ u16 v ++ dropN (off + 2) b) by congruence.
+  rewrite E'. rewrite !lenN_app, len_u16, lenN_takeN, lenN_dropN by lia. lia.
+Qed.
+
+Definition sig_pre : bytes := [0] ++ u16 TypeSIG ++ u16 255 ++ u32 0.   (* owner . type class TTL *)
+
+Lemma sig_rr_hdr_split L : sig_rr_hdr L = sig_pre ++ u16 L.
+Proof. reflexivity. Qed.
+
+Section SignFacts.
+  Variable sig_sign : N -> bytes -> res bytes.
+
+  Lemma sign_spec clen ulen h body r out :
+    sig0_sign sig_sign clen ulen (hdr_wire h ++ body) r = Ok out ->
+    exists sg,
+      key_fields_bad r = false /\ valid_wire (s_signer r) = true /\ has_hash (s_alg r) = true /\
+      ulen + 1 <= clen + lenN (sig_rr_wire r) /\
+      sig_sign (s_alg r) (sig_rdata r ++ hdr_wire h ++ body) = Ok sg /\
+      lenN out <= 65535 /\
+      out = hdr_wire (set_ar h ((h_ar h mod 65536 + 1) mod 65536)) ++ body ++
+            sig_rr_hdr ((lenN (sig_rdata r) mod 65536 + lenN sg) mod 65536) ++ sig_rdata r ++ sg.
+  Proof.
+    unfold sig0_sign. intros H.
+    destruct (key_fields_bad r) eqn:Ek; [discriminate|].
+    destruct (clen + lenN (sig_rr_wire r) <? ulen + 1) eqn:Eb; [discriminate|]. apply N.ltb_ge in Eb.
+    destruct (valid_wire (s_signer r)) eqn:Ev; [|discriminate]. cbn [negb] in H.
+    destruct (clen + lenN (sig_rr_wire r) <? lenN (hdr_wire h ++ body) + lenN (sig_rr_wire r)); [discriminate|].
+    destruct (has_hash (s_alg r)) eqn:Eh; [|discriminate]. cbn [negb] in H.
+    apply bind_ok in H. destruct H as (sg & Hs & H).
+    destruct (65535 <? _) eqn:El; [discriminate|]. apply N.ltb_ge in El.
+    exists sg. repeat split; try assumption; try lia.
+    - (* length of the result = length before the two patches *)
+      apply bind_ok in H. destruct H as (rdlen & _ & H).
+      apply bind_ok in H. destruct H as (o1 & P1 & H).
+      apply bind_ok in H. destruct H as (adc & _ & P2).
+      apply put_u16_len in P1. apply put_u16_len in P2. lia.
+    - unfold sig_rr_wire in H. rewrite sig_rr_hdr_split in H.
+      set (mbuf := hdr_wire h ++ body) in *.
+      replace (mbuf ++ ((sig_pre ++ u16 (lenN (sig_rdata r))) ++ sig_rdata r) ++ sg)
+        with ((mbuf ++ sig_pre) ++ u16 (lenN (sig_rdata r)) ++ (sig_rdata r ++ sg)) in H
+        by (rewrite <- !app_assoc; reflexivity).
+      replace (lenN mbuf + 1 + 2 + 2 + 4) with (lenN (mbuf ++ sig_pre)) in H
+        by (rewrite lenN_app; reflexivity).
+      rewrite be_at_mid in H. cbn [bind] in H.
+      rewrite put_u16_mid in H. cbn [bind] in H.
+      unfold mbuf in H. rewrite <- !app_assoc in H.
+      rewrite be_ar_wire in H. cbn [bind] in H.
+      rewrite put_ar_wire in H.
+      assert (E : out = hdr_wire (set_ar h ((h_ar h mod 65536 + 1) mod 65536)) ++ body ++ sig_pre ++
+                        u16 ((lenN (sig_rdata r) mod 65536 + lenN sg) mod 65536) ++ sig_rdata r ++ sg)
+        by congruence.
+      rewrite E. rewrite sig_rr_hdr_split. rewrite <- !app_assoc. reflexivity.
+  Qed.
+
+  (* The buffer-size test is the only way Sign can fail on a packable message
+     with a usable SIG and a working signer: it does when compression saves at
+     least the size of the SIG record. *)
+  Lemma sign_succeeds clen ulen mbuf r sg :
+    key_fields_bad r = false -> valid_wire (s_signer r) = true -> has_hash (s_alg r) = true ->
+    12 <= lenN mbuf -> lenN mbuf <= clen ->
+    ulen < clen + lenN (sig_rr_wire r) ->
+    sig_sign (s_alg r) (sig_rdata r ++ mbuf) = Ok sg ->
+    lenN mbuf + lenN (sig_rr_wire r) + lenN sg <= 65535 ->
+    exists out, sig0_sign sig_sign clen ulen mbuf r = Ok out.
+  Proof.
+    intros Hk Hv Hh Hl Hc Hu Hs Ht. unfold sig0_sign.
+    rewrite Hk, Hv, Hh. cbn [negb].
+    replace (clen + lenN (sig_rr_wire r) <? ulen + 1) with false by (symmetry; apply N.ltb_ge; lia).
+    replace (clen + lenN (sig_rr_wire r) <? lenN mbuf + lenN (sig_rr_wire r)) with false
+      by (symmetry; apply N.ltb_ge; lia).
+    rewrite Hs. cbn [bind].
+    replace (65535 <? lenN (mbuf ++ sig_rr_wire r ++ sg)) with false
+      by (symmetry; apply N.ltb_ge; lens; lia).
+    assert (Lr : 11 <= lenN (sig_rr_wire r)) by (unfold sig_rr_wire, sig_rr_hdr; lens; lia).
+    assert (Lo : lenN (mbuf ++ sig_rr_wire r ++ sg) = lenN mbuf + lenN (sig_rr_wire r) + lenN sg) by (lens; lia).
+    destruct (be_at_ok 2 (mbuf ++ sig_rr_wire r ++ sg) (lenN mbuf + 1 + 2 + 2 + 4)) as [rdlen ->]; [lia|].
+    cbn [bind]. unfold put_u16 at 2.
+    replace (lenN mbuf + 1 + 2 + 2 + 4 + 2 <=? lenN (mbuf ++ sig_rr_wire r ++ sg)) with true
+      by (symmetry; apply N.leb_le; lia).
+    cbn [bind].
+    set (o1 := takeN _ _ ++ u16 _ ++ dropN _ _).
+    assert (L1 : lenN o1 = lenN (mbuf ++ sig_rr_wire r ++ sg)).
+    { unfold o1. lens. rewrite lenN_takeN, lenN_dropN by lia. lia. }
+    destruct (be_at_ok 2 o1 10) as [adc ->]; [lia|]. cbn [bind].
+    unfold put_u16. replace (10 + 2 <=? lenN o1) with true by (symmetry; apply N.leb_le; lia).
+    eauto.
+  Qed.
+End SignFacts.
+
+(* the defect: a message whose compressed length plus the SIG is not more than
+   its uncompressed length cannot be signed *)
+Lemma sign_errbuf clen ulen mbuf r ss :
+  key_fields_bad r = false -> clen + lenN (sig_rr_wire r) <= ulen ->
+  sig0_sign ss clen ulen mbuf r = Err "buf".
+Proof.
+  intros Hk Hc. unfold sig0_sign. rewrite Hk.
+  replace (clen + lenN (sig_rr_wire r) <? ulen + 1) with true by (symmetry; apply N.ltb_lt; lia).
+  reflexivity.
+Qed.
